@@ -167,3 +167,9 @@ func InputFingerprint(state *Repo, t *Target, cleanPerTarget map[string]string) 
 	}
 	return sb.String()
 }
+
+// PlzWatched is Plz with a quiescence-classifying watchdog: when the limit fires, the process tree
+// is sampled (CPU progress, live descendants) and asked for a goroutine dump before it is killed.
+func (s *Sandbox) PlzWatched(bin string, env []string, limit time.Duration, args ...string) lib.PlzResult {
+	return lib.PlzCmd{Bin: bin, Dir: s.Repo, Args: args, Env: env, Home: s.Home, Timeout: limit, OnTimeout: lib.QuiescenceReport}.Run()
+}
